@@ -60,7 +60,9 @@ def f64 (n : Nat) : Nat :=
 def stakeWei (stake : Nat) : Nat := f64 stake * wei
 
 /-- `utility.UInt64ToByte`. -/
-def u64be (n : Nat) : Bytes := padLeft 8 (natToBE (n % 2 ^ 64))
+def u64be (n : Nat) : Bytes :=
+  [UInt8.ofNat (n / 2 ^ 56 % 256), UInt8.ofNat (n / 2 ^ 48 % 256), UInt8.ofNat (n / 2 ^ 40 % 256), UInt8.ofNat (n / 2 ^ 32 % 256),
+   UInt8.ofNat (n / 2 ^ 24 % 256), UInt8.ofNat (n / 2 ^ 16 % 256), UInt8.ofNat (n / 2 ^ 8 % 256), UInt8.ofNat (n % 256)]
 
 /-- `utility.ByteToUInt64`: `binary.Read` of 8 bytes; fewer than 8 bytes leave the result 0. -/
 def u64 (b : Bytes) : Nat := if b.length < 8 then 0 else beToNat (b.take 8)
@@ -254,6 +256,12 @@ def removeMiner (cfg : Cfg) (st : State) (id account : Bytes) (typ left : Nat) :
 def minStake (typ : Nat) : Option Nat :=
   if typ = typeProposer then some proposerStake else if typ = typeValidator then some validatorStake else none
 
+/-- The writes of a successful `AddMiner`: debit, then `UpdateMiner(miner, isNew = true)`. -/
+def addMinerApply (cfg : Cfg) (st : State) (payer : Bytes) (info : Info) (stake : Nat) (account : Bytes) : State :=
+  updateMiner cfg (st.subBal payer (stakeWei stake))
+    { id := info.id, typ := info.typ, stake := stake, status := statusNormal, applyHeight := info.applyHeight, account := account }
+    (some info)
+
 /-- `MinerManager.AddMiner`; `"ok"` or the error class. -/
 def addMiner (cfg : Cfg) (st : State) (payer : Bytes) (info : Info) (stake : Nat) (account : Bytes) : String × State :=
   match minStake info.typ with
@@ -264,11 +272,7 @@ def addMiner (cfg : Cfg) (st : State) (payer : Bytes) (info : Info) (stake : Nat
     else if st.balOf payer < stakeWei stake then ("fail:balance", st)
     else if (getMiner cfg st info.id).isSome then ("fail:idexists", st)
     else if (byAccount cfg st account).isSome then ("fail:acctexists", st)
-    else
-      let st := st.subBal payer (stakeWei stake)
-      let m : Miner := { id := info.id, typ := info.typ, stake := stake, status := statusNormal,
-                         applyHeight := info.applyHeight, account := account }
-      ("ok", updateMiner cfg st m (some info))
+    else ("ok", addMinerApply cfg st payer info stake account)
 
 /-- `minerApplyExecutor.Execute` (not mainnet; the harness signs with the zero signature, so an empty
     id cannot be recovered from the signature). -/
@@ -284,17 +288,19 @@ def execApply (cfg : Cfg) (st : State) (src id : Bytes) (typ stake : Nat) (acct 
 def reactivates (typ stake : Nat) : Bool :=
   (typ = typeProposer ∧ stake > proposerStake) ∨ (typ = typeValidator ∧ stake > validatorStake)
 
+/-- The writes of a successful `AddStake` on record `m`. -/
+def addStakeApply (cfg : Cfg) (st : State) (payer : Bytes) (m : Miner) (delta : Nat) : State :=
+  let stake' := (m.stake + delta) % 2 ^ 64
+  updateMiner cfg (st.subBal payer (stakeWei delta))
+    { m with stake := stake', status := if reactivates m.typ stake' then statusNormal else m.status } none
+
 /-- `MinerManager.AddStake`. -/
 def addStake (cfg : Cfg) (st : State) (payer id : Bytes) (delta : Nat) : String × State :=
   if delta = 0 then ("ok", st)
   else if st.balOf payer < stakeWei delta then ("fail:balance", st)
   else match getMiner cfg st id with
     | none => ("fail:nominer", st)
-    | some m =>
-      let stake' := (m.stake + delta) % 2 ^ 64
-      let status' := if reactivates m.typ stake' then statusNormal else m.status
-      let st := st.subBal payer (stakeWei delta)
-      ("ok", updateMiner cfg st { m with stake := stake', status := status' } none)
+    | some m => ("ok", addStakeApply cfg st payer m delta)
 
 /-- `minerAddExecutor.Execute`. -/
 def execAdd (cfg : Cfg) (st : State) (src id : Bytes) (delta : Nat) : String × State :=
@@ -320,21 +326,25 @@ def pendingAdd (p : List (Nat × List (Bytes × Nat))) (h : Nat) (a : Bytes) (v 
 def needsRemoval (typ left : Nat) : Bool :=
   (typ = typeProposer ∧ left < proposerStake) ∨ (typ = typeValidator ∧ left < validatorStake)
 
-/-- `RefundManager.GetRefundStake` + the executor's bookkeeping. -/
+/-- `money == MaxUint64` means "everything". -/
+def refundMoney (m : Miner) (amount : Nat) : Nat := if amount = maxU64 then m.stake else amount
+
+/-- The writes of a successful `GetRefundStake` + the executor's bookkeeping on `context["refund"]`. -/
+def refundApply (cfg : Cfg) (st : State) (id src : Bytes) (m : Miner) (money : Nat) : State :=
+  let left := m.stake - money
+  let st1 := if needsRemoval m.typ left then removeMiner cfg st id src m.typ left
+             else updateMiner cfg st { m with stake := left } none
+  { st1 with pending := pendingAdd st1.pending (st1.height + refundDelay) m.account (money * wei) }
+
+/-- `RefundManager.GetRefundStake` + `minerRefundExecutor.Execute`. -/
 def execRefund (cfg : Cfg) (st : State) (src id : Bytes) (amount : Nat) : String × State :=
   if amount > maxU64 then ("fail:amount", st)
   else match getMiner cfg st id with
     | none => ("fail:nominer", st)
     | some m =>
       if src ≠ m.account then ("fail:auth", st)
-      else
-        let money := if amount = maxU64 then m.stake else amount
-        if m.stake < money then ("fail:stake", st)
-        else
-          let left := m.stake - money
-          let st := if needsRemoval m.typ left then removeMiner cfg st id src m.typ left
-                    else updateMiner cfg st { m with stake := left } none
-          ("ok", { st with pending := pendingAdd st.pending (st.height + refundDelay) m.account (money * wei) })
+      else if m.stake < refundMoney m amount then ("fail:stake", st)
+      else ("ok", refundApply cfg st id src m (refundMoney m amount))
 
 /-- `minerChangeAccountExecutor.Execute`. -/
 def execChacc (cfg : Cfg) (st : State) (src id newAcct : Bytes) : String × State :=
